@@ -603,7 +603,11 @@ def judge_subprocess(s, argv, paths, flavour, inc, ns, cwd):
         EV.STATE['quiet'] -= 1
     EV.drain()
     try:
-        p = subprocess.run([sys.executable, '-B', '-c', code] + argv, env=env, capture_output=True,
+        # every other sample runs the interpreter with warnings as errors (-W error): the command line decides
+        # for itself what it does with the library's warnings, the outcome is the same
+        pyflags = ['-W', 'error'] if (len(argv) + len(paths)) % 2 else []
+        s.hist['cli:subprocess:%s' % ('W-error' if pyflags else 'default-filters')] += 1
+        p = subprocess.run([sys.executable, '-B'] + pyflags + ['-c', code] + argv, env=env, capture_output=True,
                            timeout=60, cwd=cwd)
         p.stdout = p.stdout.decode('utf-8', 'replace')
         p.stderr = p.stderr.decode('utf-8', 'replace')
